@@ -14,6 +14,7 @@ VERIF = os.path.dirname(os.path.dirname(os.path.abspath(__file__)))
 
 def main():
     src, off = sys.argv[1], int(sys.argv[2])
+    rnd = sys.argv[3] if len(sys.argv) > 3 else "fifth"
     for name in sorted(os.listdir(src)):
         d = os.path.join(src, name)
         m = re.match(r"(C\d\d)_(\d+)$", name)
@@ -33,6 +34,8 @@ def main():
         prop = m.group(1)
         sid = "%s_%d" % (prop, int(m.group(2)) + off)
         out = os.path.join(VERIF, "seeded", sid)
+        if os.path.isdir(out):
+            continue
         os.makedirs(out, exist_ok=True)
         am = json.load(open(os.path.join(d, "meta.json")))
         shutil.copy(os.path.join(d, "patch.diff"), os.path.join(out, "patch.diff"))
@@ -47,7 +50,7 @@ def main():
             "breaks": am.get("summary", ""),
             "needs_to_manifest": am.get("needs_to_manifest", ""),
             "demo": {"file": demo_file, "place_at": demo.get("place_at", ""), "run": demo.get("run", "")},
-            "origin": "written by an independent sub-agent that saw only the property text and a scratch worktree (nothing from /verif); fourth round, base b4d5b9c",
+            "origin": "written by an independent sub-agent that saw only the property text and a scratch worktree (nothing from /verif); %s round, base b4d5b9c" % rnd,
             "what_i_ran": {
                 "script": "scratch worktree at the seed's base commit: apply patch.diff; cargo build --lib --bins; full 691-test nextest suite WITH the change (demo absent); demo test WITH the change; revert; demo test WITHOUT the change",
                 "result_lines": [l for l in lines if l.startswith(("seed ", "build_with_patch", "suite_with_patch", "demo_with_patch_exit", "demo_without_patch_exit", "DONE"))],
